@@ -14,7 +14,8 @@ rc=$?
 if [ "$1" != "--replay" ]; then
   python3-vt - "$ID" <<'PY' || { echo "HARNESS-ERROR: evidence file invalid"; [ $rc -eq 0 ] && rc=2; }
 import json, sys, jsonschema
-ev = json.load(open(f"evidence/{sys.argv[1].upper()}.json"))
+import os
+ev = json.load(open(os.path.join(os.environ.get("VERIF_EVIDENCE_DIR") or "evidence", sys.argv[1].upper() + ".json")))
 jsonschema.validate(ev, json.load(open("schemas/EVIDENCE.schema.json")))
 PY
 fi
